@@ -295,8 +295,14 @@ func c12Probes(c *fw.Ctx, e *Env, g *Gen, viol func(rule, sig, format string, a 
 		probe("claim", ra, &streamtypes.MsgClaimStream{Receiver: se.Receiver, Sender: se.Sender})
 		probe("cancel", sa, &streamtypes.MsgCancelStream{Receiver: se.Receiver, Sender: se.Sender})
 		amt := math.NewInt(se.Stream.FlowRate).MulRaw(60)
-		if obs.Accts[sa.Addr.String()].Spendable.AmountOf(se.Stream.Deposit.Denom).GTE(amt) {
+		have := obs.Accts[sa.Addr.String()].Spendable.AmountOf(se.Stream.Deposit.Denom)
+		if have.GTE(amt) {
 			probe("topup", sa, &streamtypes.MsgTopUpDeposit{Receiver: se.Receiver, Sender: se.Sender, Deposit: sdk.NewCoin(se.Stream.Deposit.Denom, amt)})
+		}
+		// "a top-up the sender can afford" includes the boundary: everything the sender can spend
+		if have.IsPositive() {
+			probe("topup", sa, &streamtypes.MsgTopUpDeposit{Receiver: se.Receiver, Sender: se.Sender, Deposit: sdk.NewCoin(se.Stream.Deposit.Denom, have)})
+			c.Count("probes_topup_whole_balance", 1)
 		}
 	}
 }
